@@ -528,6 +528,7 @@ c10_tree_float!(c10_tree_f32_l3_kf_rounding, f32, 3, 1);
 proofs! { c09_ops_u64_l3 => 8, 15, [h_new::<u64, 3>(), h_push::<u64, 3, 4>(), h_pop::<u64, 3, 2>(), h_update::<u64, 3>()]; }
 
 //@ id: c09_ops_i64_l4
+//@ besteffort: yes
 //@ prop: C09
 //@ tier: thorough
 //@ cap: 900
@@ -537,6 +538,7 @@ proofs! { c09_ops_u64_l3 => 8, 15, [h_new::<u64, 3>(), h_push::<u64, 3, 4>(), h_
 proofs! { c09_ops_i64_l4 => 8, 15, [h_new::<i64, 4>(), h_push::<i64, 4, 5>(), h_update::<i64, 4>()]; }
 
 //@ id: c09_ops_u32_l5
+//@ besteffort: yes
 //@ prop: C09
 //@ tier: thorough
 //@ cap: 900
@@ -546,6 +548,7 @@ proofs! { c09_ops_i64_l4 => 8, 15, [h_new::<i64, 4>(), h_push::<i64, 4, 5>(), h_
 proofs! { c09_ops_u32_l5 => 9, 15, [h_new::<u32, 5>(), h_push::<u32, 5, 6>(), h_pop::<u32, 5, 4>(), h_update::<u32, 5>()]; }
 
 //@ id: c09_ops_i64_l3
+//@ besteffort: yes
 //@ prop: C09
 //@ tier: thorough
 //@ cap: 900
